@@ -215,7 +215,7 @@ def describe(cfg, prefix):
     return {"n_tries": cfg["n_tries"], "timeout": T, "sequence_mask": cfg.get("mask"), "sequence_start": cfg.get("advance", 0),
             "bursts": [{"api": b.get("api", "send_scp_burst"), "window_size": b["window"],
                         "commands": cmds(b)} for b in cfg["bursts"]],
-            "outcome_per_transmission": list(prefix) + ["ok ..."],
+            "outcome_per_transmission": list(prefix) + ["ok ..."], "forced_reply": cfg.get("reply_code"),
             "held_replies": ("commands %r of the burst are answered once, 40 s after their transmission" % (cfg["stuck"],)) if cfg.get("stuck") else None}
 
 
@@ -336,6 +336,40 @@ def run(tier="quick", seed=0):
         nontrivial += counter[1]
         per_family[fam] = per_family.get(fam, 0) + counter[0]
 
+    # every fatal return code of the SCP specification, as the reply to every position of bursts of 1-3 commands (the other
+    # commands answered at once): FatalReturnCodeError carrying that code.  And both retryable codes once: retried, then answered.
+    def code_hook(target, code):
+        def hook(case, rec, n):
+            if rec.cid == 0x1000 + target and n == 1:
+                return [(0.0, code)]
+            return None
+        return hook
+    n_codes = 0
+    for code in sim.FATAL_CODES + sim.RETRYABLE_CODES:
+        for n in (1, 2, 3):
+            for k in range(n):
+                for w in (1, 2):
+                    cfg = {"n_tries": 3, "bursts": [{"window": w, "cmds": [(0, 0)] * n}]}
+                    case = Case(S, cfg, (), code_hook(k, code)).run()
+                    ev += 1
+                    nontrivial += 1
+                    n_codes += 1
+                    if case.viol:
+                        report(case, dict(cfg, reply_code="0x%02x to the first transmission of command %d" % (code, k)), (), "codes")
+                    clean(cfg)
+    per_family["every_return_code"] = n_codes
+    # the real 16-bit sequence counter across its wrap: the connection's generator advanced to 65530, then 12 commands
+    for w in (1, 2):
+        for sched in ((), (sim.REQ_LOST,), (sim.OK, sim.OK, sim.OK, sim.OK, sim.OK, sim.REP_LOST)):
+            cfg = {"n_tries": 3, "advance": 65530, "bursts": [{"window": w, "cmds": [(0, 0)] * 12}]}
+            case = Case(S, cfg, sched).run()
+            ev += 1
+            nontrivial += 1
+            if case.viol:
+                report(case, cfg, sched, "wrap16")
+            clean(cfg)
+    per_family["wrap_16bit_advanced"] = 6
+
     # seeded sample of deeper schedules (depth 9) on the largest configuration
     n_rand = 1500 if tier == "quick" else 20000
     full = FULL
@@ -386,7 +420,7 @@ def run(tier="quick", seed=0):
                     "duplicated at once / duplicated late, rc 0x82, rc 0x8d, fatal rc}, lazily enumerated so that every schedule whose last fault is "
                     "actually reached runs exactly once (so all cases are distinct); configurations: bursts of 1-3 commands x window 1-2 x n_tries 1-3, "
                     "send_scp, per-command extra timeouts and callbacks that keep the host busy 2.5 timeouts, two consecutive bursts on one connection "
-                    "sharing one schedule, 3-bit sequence space (seqs(mask=7)) with 1-3 long-outstanding commands across a wrap; plus a seeded sample "
+                    "sharing one schedule, every fatal and retryable return code of the SCP specification as the reply to every position of a 1-3 command burst, the real 16-bit counter advanced to 65530 and 12 commands sent across its wrap, 3-bit sequence space (seqs(mask=7)) with 1-3 long-outstanding commands across a wrap; plus a seeded sample "
                     "at depth 9.  non-trivial = at least one fault outcome consumed (or a sequence wrap).  runs per family: %r" % (per_family,),
             "bound": ("quick: single bursts and send_scp to depth 5, extras and two bursts to depth 4 (two one-command bursts: 5), wrap family depth 2"
                       if tier == "quick" else
